@@ -158,7 +158,8 @@ impl Property for C09 {
             let words = crate::SRC_DICT.iter().find(|(code, _)| *code == l).map(|(_, ws)| *ws).unwrap_or(&[]);
             let Some(w) = words.get(c.digits[0] as usize * 256 + c.digits[1] as usize) else { return Ok(()) };
             let known = v.number_words.iter().any(|x| x.to_lowercase() == *w) || v.linking.contains(w) || *w == v.conj || *w == v.sep || v.conj_alts.contains(w) || v.zeros.contains(w);
-            if known || lg.is_linking(w) || lg.is_decimal_sep(w) || text2num::text2digits(w, lg).is_ok() {
+            let lib_says = no_panic("is_linking / is_decimal_sep / text2digits on a word of the language module", || lg.is_linking(w) || lg.is_decimal_sep(w) || text2num::text2digits(w, lg).is_ok())?;
+            if known || lib_says {
                 obs.exclude("source-word-is-number-linking-or-separator");
                 return Ok(());
             }
@@ -173,7 +174,7 @@ impl Property for C09 {
                 (spell::cardinal_nk(l, [20u64, 100, 10, 30][c.digits[3] as usize % 4], &mut Canon).join(" "), if l == "de" && d == 1 { "eins".to_string() } else { spell::cardinal(l, d as u64, &mut Canon).join(" ") })
             };
             let text = if c.digits[2] & 1 == 0 { format!("{} {} {}", big, w, small) } else { format!("{} {} {}", small, w, big) };
-            let (toks, occ0) = scan(&text, lg, 0.0);
+            let (toks, occ0) = no_panic("find_numbers", || scan(&text, lg, 0.0))?;
             let wi = toks.iter().position(|t| t.lowercase == *w);
             let separate = occ0.len() == 2 && wi.map_or(false, |i| occ0[0].end <= i && i < occ0[1].start);
             if !separate {
@@ -183,7 +184,7 @@ impl Property for C09 {
             let small_occ = if c.digits[2] & 1 == 0 { &occ0[1] } else { &occ0[0] };
             let is_small = small_occ.ord || small_occ.text.chars().count() == 1;
             let t = small_occ.value() + 1.0;
-            let (_, occ_t) = scan(&text, lg, t);
+            let (_, occ_t) = no_panic("find_numbers", || scan(&text, lg, t))?;
             if is_small && occ_t.iter().any(|o| o.start == small_occ.start) {
                 return Err(format!("[{}] threshold {}: in {:?} the small number {:?} is rewritten although the only word next to it, {:?}, is not a linking word (is_linking = false) and the other number is a separate occurrence", l, t, text, small_occ.text, w));
             }
